@@ -136,39 +136,7 @@ pub fn c01(ctx: &mut Ctx) {
     }
 
     // ---- M1(u): `log` while the caller's standard output refuses the write ----------------
-    // (every shard: a handful of calls; the descriptor is /dev/full, then a pipe without a reader)
-    if observe::capture_active() {
-        let rules = vec![
-            json!({"log": 1}), json!({"log": ["x"]}), json!({"log": {"var": "a"}}), json!({"cat": [{"log": "a"}, {"log": "b"}]}), json!({"if": [{"log": true}, {"log": "t"}, "e"]}),
-            json!({"map": [[1, 2, 3], {"log": {"var": ""}}]}), json!({"reduce": [[1, 2], {"log": {"+": [{"var": "current"}, {"var": "accumulator"}]}}, 0]}), json!({"log": "\u{e9}\u{1F600}"}),
-            json!({"log": {"/": [1]}}), json!({"+": [{"log": 1}, {"log": "x"}]}), json!({"log": "x".repeat(20_000)}),
-        ];
-        for closed in [false, true] {
-            for r in rules.iter() {
-                let d = json!({"a": [1, 2]});
-                if let Some(out) = observe::call_with_unwritable_stdout(r, &d, closed) {
-                    ctx.evaluations += 1;
-                    ctx.mon("c01.apply").observed += 1;
-                    ctx.mon("c01.apply").judged += 1;
-                    match &out {
-                        Outcome::Panic(p) => {
-                            let site = p.rsplit(" @ ").next().unwrap_or("").to_string();
-                            let msg: String = p.split(" @ ").next().unwrap_or("").chars().take(60).collect();
-                            ctx.violation_x("c01.apply", &format!("panic:log:{}:{}", msg, site), r, &d, json!("a value or an error"), out.brief(), "evaluation panicked when the line of a `log` could not be written to standard output", json!({"stdout": if closed { "a pipe without a reader" } else { "/dev/full" }}));
-                            ctx.cell("unwritable-stdout:panic");
-                        }
-                        Outcome::Ok(_) => ctx.cell("unwritable-stdout:value"),
-                        Outcome::Err(_) => ctx.cell("unwritable-stdout:error"),
-                    }
-                }
-            }
-        }
-        // nothing of this may linger: the next call prints its line where it belongs
-        let obs = ctx.observe(&json!({"log": "after-unwritable"}), &Value::Null);
-        if obs.logs != vec!["\"after-unwritable\"".to_string()] || !matches!(obs.out, Outcome::Ok(_)) {
-            ctx.violation("c01.apply", "log-after-unwritable-stdout", &json!({"log": "after-unwritable"}), &Value::Null, json!({"lines": ["\"after-unwritable\""]}), json!({"out": obs.out.brief(), "lines": obs.logs}), "after calls whose log lines could not be written, a later call does not behave normally");
-        }
-    }
+    crate::props_c17::unwritable_stdout_class(ctx, "c01.apply");
 
     // ---- M1(a): operator matrix ------------------------------------------------------
     for op in ops.iter() {
@@ -341,8 +309,12 @@ pub fn c01(ctx: &mut Ctx) {
                     for rule in [json!({ *op: [v] }), json!({ *op: [v, 1] }), json!({ *op: [1, v] }), json!({ *op: [v, v] }), json!({ *op: ["x", 1, v] }), json!({ *op: [v, 1, 1] }), json!({ *op: [[1], v, v] }), json!({ *op: v })] {
                         total(ctx, "c01.apply", ["error-echo:1.5KB", "error-echo:20KB", "error-echo:150KB"][si], &rule, &data);
                     }
-                    if k == 0 && si == 0 {
-                        total(ctx, "c01.apply", "error-echo:literal", &json!({ *op: [lit, 1] }), &data);
+                    if si == 0 {
+                        // the same operands written into the rule itself, bracketed and bare (a message that quotes
+                        // the rule text rather than an evaluated operand)
+                        for rule in [json!({ *op: [lit, 1] }), json!({ *op: [1, lit] }), json!({ *op: [lit] }), json!({ *op: lit }), json!({ *op: [1, 2, lit] })] {
+                            total(ctx, "c01.apply", "error-echo:literal", &rule, &data);
+                        }
                     }
                 }
             }
